@@ -58,4 +58,8 @@ CLAIMED["C17"] = dict(
   text="Generated NoiseModels, devices, registers/layouts/detuning maps, EmulationConfig/QutipConfig (all default observables, states, operators) and Results: own jsonschema validation with the schema files on disk, decode(encode(x)) == x field by field, idempotent re-encode, NoiseModel<->SimConfig parameter equality, no change of existing instances when new ones are built. Exploration.",
   note="Trusted: jsonschema/referencing and the schema files; Python json float round trip; Results values compared after JSON normalisation.",
   technique="property-based testing: generated objects, round-trip and metamorphic (aliasing) oracles")
+CLAIMED["C08"] = dict(
+  text="Generated concrete programs with ~30% of their numeric arguments replaced by generated variable expressions (scalars, arrays, items, arithmetic and functions) and 1-3 assignments; template.build(**v) compared by canonical snapshot with the same calls issued directly with harness-evaluated values; template immutability; build(v1),build(v2),build(v1) reproducibility; mappable registers against an own register construction. Exploration.",
+  note="Trusted: harness expression evaluator (Python/numpy arithmetic); call logs are not part of 'the same sequence'.",
+  technique="property-based testing: generated programs, differential (parametrized build vs direct construction) + metamorphic repeat-build relations")
 NOT_YET = {}
